@@ -54,9 +54,10 @@ class State:
         self.E0 = []              # a caller-owned empty list (nothing in it to convert or copy)
         self.pool = [schema.int.min(0), schema.str.len(1, 2), schema.list(self.L0),
                      schema.dict(self.D0), schema.any(schema.int, schema.str),
-                     schema.list(schema.int), schema.str.regex("\\d\\w[^a]")]
+                     schema.list(schema.int), schema.str.regex("\\d\\w[^a]"),
+                     schema.dict({"a": schema.int, ...: ...})]
         self.names = ["int.min(0)", "str.len(1,2)", "list(L0)", "dict(D0)", "any(int,str)", "list(int)",
-                      "str.regex"]
+                      "str.regex", "dict(a, ...)"]
         self.entry = []           # snapshot of each pooled schema when it entered
         self.G = None             # last container returned by fake
         self.R = None             # last ValidationResult
@@ -114,6 +115,10 @@ def events():
     # top / inside the nested dict), after which the caller removes the member again
     ev += [("from_native_fail", "top"), ("from_native_fail", "nested"), ("subst_untyped_fail", "top"),
            ("subst_untyped_fail", "nested")]
+    # member 7, a relaxed dict: as either operand of + (with itself, with the closed dict), and
+    # the other dict operations
+    ev += [("add", 7, 7), ("add", 7, 3), ("add", 3, 7), ("validate", 7, "v_dict"), ("subst", 7, "v_dict"),
+           ("repr", 7), ("mkreq", 7, None), ("getitem", 7, "a"), ("iter", 7), ("gen", 7)]
     ev += [("subst_untyped", vn) for vn in COLLIDING_LISTS]
     ev += [("subst_untyped_dict", vn) for vn in COLLIDING[:3]]
     muts = [("mut", "E0.append"), ("mut", "L0.append"), ("mut", "L0.clear"), ("mut", "L0.setitem"), ("mut", "D0.set"),
@@ -392,6 +397,8 @@ def core_events():
         if len(e) > 2 and e[2] in MISSING:
             continue
         if len(e) > 1 and e[1] == 6:
+            continue
+        if len(e) > 1 and e[1] == 7 and e[0] != "add":
             continue
         if e[0] in ("validate", "subst") and isinstance(e[1], int) and e[1] in (0, 1, 4) \
                 and e[2] != "v_list":
